@@ -297,7 +297,11 @@ func TestVerif_C16(t *testing.T) {
 				r.Sample(map[string]any{"scenario": name, "events": x.Labels[:n], "known_flags": fmt.Sprint(st.results)})
 			}
 		}
-		stt := vx.Explore(r, t, name, sc, xplore.Options{Policy: xplore.Preempt, Bound: bound, LockPoints: true, LockPointsAll: strings.HasSuffix(name, "+bg"), MaxSteps: 800}, check)
+		b := bound
+		if strings.HasSuffix(name, "+bg") && b > 3 {
+			b = 3 // the +bg programs have several times as many scheduling points
+		}
+		stt := vx.Explore(r, t, name, sc, xplore.Options{Policy: xplore.Preempt, Bound: b, LockPoints: true, LockPointsAll: strings.HasSuffix(name, "+bg"), MaxSteps: 800}, check)
 		r.Note("%s: execs(this shard)=%d", name, stt.Execs)
 	}
 	r.Extra("preemption_bound", bound)
